@@ -26,8 +26,11 @@ def run(ctx, facts):
     ctx.rule("A5", "compute_if_present and every other writer of a bin: lock -> re-validate -> act, with no link of the bin loaded before the lock "
                    "carried into the section (rule L1 of C01): a writer that replaces bin contents it read under an earlier critical section "
                    "overwrites a compute that took effect in between", floor=11)
-    from .rules_c01 import rule_l1
+    from .rules_c01 import rule_l1, rule_l2
     rule_l1(ctx, facts, rule="A5")
+    ctx.rule("A6", "entries are linked / unlinked, values swapped and bins replaced only under the bin lock (rule L2 of C01): a writer that "
+                   "changes a value without the lock lands in the middle of a compute_if_present on the same key", floor=30)
+    rule_l2(ctx, facts, rule="A6")
     cip = facts.body("map::HashMap::compute_if_present")
     fl = flow(cip)
     vs = [v for v in validated_regions(cip) if bin_lock_region(v.region)]
